@@ -211,10 +211,53 @@ class Gen:
         r = self.rng
         return r.choice(r.choice([AND_SP, OR_SP, IMP_SP, IFF_SP, ['^']]))
 
+    def interaction(self, d):
+        """Productions that make two features of the translator meet:
+        priming of a quantified / LET / defined sub-formula, a definition
+        expanded under a quantifier that binds one of its variables, a
+        quantifier over a primed identifier inside a primed formula."""
+        r = self.rng
+        names = list(self.decl)
+        v = r.choice(names)
+        sty = r.choice(["'", 'X'])
+        k = r.randrange(5)
+        if k == 0:      # (\E v: ...)'
+            return ('prime', sty, ('quant', r.choice(['A', 'E']),
+                                   [(v, False)], self.bool_expr(d - 1)))
+        if k == 1 and self.fresh:      # LET p == <uses v> IN \E v: p ...
+            n = self.fresh.pop(0)
+            if self.decl[v] == 'bool':
+                dd = ('bin', self.bin_spelling(), ('var', v), self.bool_leaf())
+                use = ('op', n)
+            else:
+                dd = ('arith', r.choice(['+', '-', '*']), ('var', v),
+                      ('num', r.randint(-3, 3)))
+                use = ('cmp', r.choice(CMP_SP), ('op', n),
+                       self.int_leaf()[0])
+            saved = dict(self.scope)
+            body = ('quant', r.choice(['A', 'E']), [(v, r.random() < 0.2)],
+                    ('bin', self.bin_spelling(), use, self.bool_expr(d - 2)))
+            self.scope = saved
+            return ('let', [(n, dd)], body)
+        if k == 2:      # \E v': (... v' ... v ...)
+            inner = self.bool_expr(d - 1)
+            return ('quant', r.choice(['A', 'E']), [(v, True)],
+                    ('bin', self.bin_spelling(), inner,
+                     ('prime', sty, self.bool_expr(d - 2))))
+        if k == 3 and self.fresh:      # (LET ... IN ...)'
+            return ('prime', sty, self.let_expr(d, 'bool'))
+        names = [n for n, (ty, _) in self.scope.items() if ty == 'bool']
+        if names:       # p'
+            return ('prime', sty, ('op', r.choice(names)))
+        return ('prime', sty, self.bool_expr(d - 1))
+
     def bool_expr(self, d):
         r = self.rng
         if d <= 0 or r.random() < 0.12:
             return self.bool_leaf()
+        if d >= 2 and self.allow_quant and self.allow_let and \
+                self.allow_prime and r.random() < 0.06:
+            return self.interaction(d)
         c = r.random()
         if c < 0.10:
             return ('not', r.choice(['~', '!']), self.bool_expr(d - 1))
